@@ -206,6 +206,8 @@ package message
 //@   invariant r.handlers != nil [mon:handlersLock:handlers-map-exists]
 //@   invariant forall k string :: has(r.handlers, k) ==> r.handlers[k] != nil && r.handlers[k].name == k && r.handlers[k].startedCh != nil && (!r.handlers[k].started ==> !closed(r.handlers[k].startedCh)) [mon:handlersLock:registered-handlers-are-well-formed]
 
+//@   invariant forall k1 string, k2 string :: has(r.handlers, k1) && has(r.handlers, k2) && k1 != k2 ==> r.handlers[k1] != r.handlers[k2] && r.handlers[k1].startedCh != r.handlers[k2].startedCh [mon:handlersLock:handlers-and-their-started-channels-are-distinct]
+
 //@ type handler
 //@   self h
 //@   ownschan startedCh, stopped
@@ -245,8 +247,9 @@ package message
 //@   panics-ensures panicked(NPH, old(calls(NPH)))
 
 //@ func (*Router).AddNoPublisherHandler
+//@   ghost label ADDNPH
 //@   requires r != nil && r.handlersLock != nil && r.handlersWg != nil
-//@   ensures result != nil && result.handler != nil && has(r.handlers, handlerName) && r.handlers[handlerName] == result.handler [registered-under-its-name]
+//@   ensures result != nil && result.router == r && result.handler != nil && has(r.handlers, handlerName) && r.handlers[handlerName] == result.handler [registered-under-its-name]
 //@   ensures result.handler.name == handlerName && result.handler.subscriber == subscriber && result.handler.subscribeTopic == subscribeTopic && result.handler.publishTopic == "" && hasdyntype(result.handler.publisher, "message.disabledPublisher") [no-publish-topic-and-a-publisher-that-refuses]
 //@   ensures isclosure(result.handler.handlerFunc, "message.(*Router).AddNoPublisherHandler$1") && closurevar(result.handler.handlerFunc, 0) == handlerFunc [adapter-around-the-given-function]
 //@   modifies map(r.handlers), wg(r.handlersWg)
@@ -429,6 +432,7 @@ package message
 //@   assert @call:h.subscriber.Subscribe: !h.started && goodctx(ctx) [a-started-handler-is-never-subscribed-again]
 //@   assert @close:h.startedCh: h.started && h.messagesCh == ret(SUB, 0, calls(SUB) - 1) && h.stopFn != nil && h.stopped != nil [stop-and-stopped-usable-once-started-is-observable]
 //@   inv loop 1: r.handlers != nil && (forall k string :: has(r.handlers, k) ==> r.handlers[k] != nil && r.handlers[k].name == k && r.handlers[k].startedCh != nil && (!r.handlers[k].started ==> !closed(r.handlers[k].startedCh))) [registered-handlers-stay-well-formed]
+//@   inv loop 1: forall k1 string, k2 string :: has(r.handlers, k1) && has(r.handlers, k2) && k1 != k2 ==> r.handlers[k1] != r.handlers[k2] && r.handlers[k1].startedCh != r.handlers[k2].startedCh [handlers-and-their-started-channels-stay-distinct]
 //@   inv loop 1: forall k string :: visited(k) && has(r.handlers, k) ==> r.handlers[k].started [visited-handlers-are-started]
 //@   panics-ensures calls(SUB) >= old(calls(SUB))
 //@   modifies field(handler.publisher), field(handler.subscriber), field(handler.messagesCh), field(handler.started), field(handler.stopFn), field(handler.stopped)
